@@ -746,5 +746,9 @@ func TestC10(t *testing.T) {
 	if harnessOnly > 0 {
 		ev.MinNontrivial(1 << 30) // force inconclusive: the monitor raced with itself
 	}
+	for _, driver := range vlib.Drivers() {
+		driver := driver
+		parallelCases(vlib.Scale(6, 100), 3, func(i int) { contractSnapshots(ev, driver, i) })
+	}
 	finish(t, ev)
 }
